@@ -3,6 +3,7 @@ package main
 import (
 	"fmt"
 	"go/token"
+	"go/types"
 	"strings"
 
 	"golang.org/x/tools/go/ssa"
@@ -31,7 +32,7 @@ func checkSenderFresh(w *World, r *Report, rule string) {
 	if pr.fail(r, rule) {
 		return
 	}
-	g := w.FG(pr.deliverFn)
+	g := w.FGI(pr.deliverFn)
 	snd := make([]bool, len(g.ins))
 	for i, in := range g.ins {
 		if st, ok := in.(*ssa.Store); ok {
@@ -90,8 +91,8 @@ func checkDefaultOptsFresh(w *World, r *Report, rule string) {
 		if !w.isLib(f) || fnPkgPath(f) != modPath+"/actor" {
 			continue
 		}
-		for _, b := range f.Blocks {
-			for _, in := range b.Instrs {
+		for _, in := range w.insOf(f) {
+			{
 				if st, isSt := in.(*ssa.Store); isSt {
 					if fa, isFA := st.Addr.(*ssa.FieldAddr); isFA && isFieldOf(fa, optsT, "Middleware") {
 						v := w.pathOf(st.Val)
@@ -112,7 +113,7 @@ func checkSingleDeadLetter(w *World, r *Report, rule string) {
 		if fn == nil {
 			continue
 		}
-		g := w.FG(fn)
+		g := w.FGI(fn)
 		DL := w.Nodes(g, w.evBroadcast("actor", "DeadLetterEvent"), false)
 		ok, x := g.AtMostOnce(DL)
 		d := ""
@@ -135,8 +136,8 @@ func checkContextFixed(w *World, r *Report, rule string) {
 		if !w.isLib(fn) || fnPkgPath(fn) != modPath+"/actor" {
 			continue
 		}
-		for _, b := range fn.Blocks {
-			for _, in := range b.Instrs {
+		for _, in := range w.insOf(fn) {
+			{
 				if st, ok := in.(*ssa.Store); ok {
 					if fa, ok := st.Addr.(*ssa.FieldAddr); ok && isFieldOf(fa, procT, "context") {
 						if _, fresh := fa.X.(*ssa.Alloc); !fresh {
@@ -157,7 +158,7 @@ func checkCancelDeferred(w *World, r *Report, rule string) {
 	if pr.fail(r, rule) {
 		return
 	}
-	g := w.FG(pr.stopFn)
+	g := w.FGI(pr.stopFn)
 	var cancelP *ssa.Parameter
 	for _, p := range pr.stopFn.Params {
 		if isCancelFunc(p.Type()) {
@@ -199,7 +200,7 @@ func checkMaxRestartsOpt(w *World, r *Report, rule string) {
 		return
 	}
 	cf := fn.AnonFuncs[0]
-	g := w.FG(cf)
+	g := w.FGI(cf)
 	st := make([]bool, len(g.ins))
 	for i, in := range g.ins {
 		if s, ok := in.(*ssa.Store); ok {
@@ -244,8 +245,8 @@ func checkNoGoroutinesInMachine(w *World, r *Report, rule string) {
 	for _, typ := range []string{"process", "Inbox", "funcReceiver", "Registry", "eventStream"} {
 		for _, fn := range w.MethodsOf("actor", typ) {
 			n++
-			for _, b := range fn.Blocks {
-				for _, in := range b.Instrs {
+			for _, in := range w.insOf(fn) {
+				{
 					if g, ok := in.(*ssa.Go); ok {
 						bad = append(bad, fname(fn)+" at "+w.pos(g.Pos()))
 					}
@@ -260,7 +261,7 @@ func checkNoGoroutinesInMachine(w *World, r *Report, rule string) {
 		r.Unknown(rule, "funcReceiver.Receive", "function receivers", "-", "not found")
 		return
 	}
-	g := w.FG(fr)
+	g := w.FGI(fr)
 	calls := make([]bool, len(g.ins))
 	for i, in := range g.ins {
 		if c, ok := in.(*ssa.Call); ok && c.Call.StaticCallee() == nil && !c.Call.IsInvoke() && w.pathOf(c.Call.Value) == "P0.f" && len(c.Call.Args) == 1 && w.pathOf(c.Call.Args[0]) == "P1" {
@@ -277,7 +278,7 @@ func checkInboxStopStores(w *World, r *Report, rule string) {
 	if roleProblems(r, rule, ir) {
 		return
 	}
-	g := w.FG(ir.stop)
+	g := w.FGI(ir.stop)
 	st := make([]bool, len(g.ins))
 	for _, op := range ir.ops {
 		if op.fn == ir.stop && op.kind != "Load" && op.new == ir.stopped {
@@ -298,8 +299,8 @@ func checkSchedulerAsync(w *World, r *Report, rule string) {
 		n++
 		async := false
 		sync := false
-		for _, b := range fn.Blocks {
-			for _, in := range b.Instrs {
+		for _, in := range w.insOf(fn) {
+			{
 				if c := callOf(in); c != nil && c.Value == ssa.Value(fn.Params[1]) {
 					if _, isGo := in.(*ssa.Go); isGo {
 						async = true
@@ -325,7 +326,7 @@ func checkOptionStores(w *World, r *Report, rule, opt, field, want string) {
 		return
 	}
 	cf := fn.AnonFuncs[0]
-	g := w.FG(cf)
+	g := w.FGI(cf)
 	st := make([]bool, len(g.ins))
 	got := ""
 	for i, in := range g.ins {
@@ -349,7 +350,7 @@ func checkStartClearsBuffer(w *World, r *Report, rule string) {
 	if pr.fail(r, rule) {
 		return
 	}
-	g := w.FG(pr.start)
+	g := w.FGI(pr.start)
 	clr := make([]bool, len(g.ins))
 	for i, in := range g.ins {
 		if st, ok := in.(*ssa.Store); ok {
@@ -422,7 +423,7 @@ func valueSetter(w *World, fn *ssa.Function, field string) bool {
 	if fn == nil || fn.Blocks == nil || len(fn.Params) != 2 {
 		return false
 	}
-	g := w.FG(fn)
+	g := w.FGI(fn)
 	var copyA *ssa.Alloc
 	for _, in := range g.ins {
 		if st, ok := in.(*ssa.Store); ok && st.Val == ssa.Value(fn.Params[0]) {
@@ -462,7 +463,7 @@ func checkDrainStart(w *World, r *Report, rule string) {
 	if pr.fail(r, rule) {
 		return
 	}
-	g := w.FG(pr.invoke)
+	g := w.FGI(pr.invoke)
 	key := fname(pr.invoke) + ":drain-starts-at-pill"
 	what := "the drained tail msgs[k:] starts at the pill's position (k = loop index, index+1, or a counter advanced once per delivered element)"
 	var sl *ssa.Slice
@@ -556,8 +557,8 @@ func (w *World) family(fn *ssa.Function) []*ssa.Function {
 		if d > 3 {
 			return
 		}
-		for _, b := range f.Blocks {
-			for _, in := range b.Instrs {
+		for _, in := range w.insOf(f) {
+			{
 				c := callOf(in)
 				if c == nil {
 					if mc, ok := in.(*ssa.MakeClosure); ok {
@@ -575,6 +576,9 @@ func (w *World) family(fn *ssa.Function) []*ssa.Function {
 				}
 				if callee.Object() != nil && callee.Object().Exported() {
 					continue
+				}
+				if g := w.FGI(f); g.inl[g.idx[in]] {
+					continue // spliced into f's graph: its instructions are f's
 				}
 				seen[callee] = true
 				out = append(out, callee)
@@ -598,4 +602,138 @@ func (w *World) holder(fn *ssa.Function, pred func(f *ssa.Function) bool) *ssa.F
 		}
 	}
 	return found
+}
+
+// writesField reports whether fn stores to the named field of the struct type.
+func writesField(fn *ssa.Function, named *types.Named, field string) bool {
+	for _, b := range fn.Blocks {
+		for _, in := range b.Instrs {
+			if st, ok := in.(*ssa.Store); ok {
+				if fa, ok := st.Addr.(*ssa.FieldAddr); ok && isFieldOf(fa, named, field) {
+					return true
+				}
+			}
+		}
+	}
+	return false
+}
+
+// factPos renders a decided branch condition as the relation that holds: `a != b` known false
+// reads (a==b), `a < b` known false reads (a>=b); anything else false reads !(cond).
+func (w *World) factPos(f Fact) string {
+	if f.Val {
+		return w.pathOf(f.Cond)
+	}
+	if b, ok := f.Cond.(*ssa.BinOp); ok {
+		neg := map[token.Token]token.Token{token.EQL: token.NEQ, token.NEQ: token.EQL, token.LSS: token.GEQ, token.GEQ: token.LSS, token.GTR: token.LEQ, token.LEQ: token.GTR}
+		if op, ok := neg[b.Op]; ok {
+			return "(" + w.pathOf(b.X) + op.String() + w.pathOf(b.Y) + ")"
+		}
+	}
+	return "!" + w.pathOf(f.Cond)
+}
+
+// rangeLoopEvery: in g there is a range loop over the value with access path `over`; the marked
+// action happens exactly once in every iteration, the loop is reached on every path from the
+// entry and is left only when the iteration is exhausted.
+func (w *World) rangeLoopEvery(g *FG, over string, A []bool) bool {
+	var nexts []int
+	for i, in := range g.ins {
+		if nx, ok := in.(*ssa.Next); ok && w.pathOf(nx) == "next(range("+over+"))" {
+			nexts = append(nexts, i)
+		}
+	}
+	if len(nexts) != 1 || !anyOf(A) {
+		return false
+	}
+	nx := nexts[0]
+	nxV := g.ins[nx].(*ssa.Next)
+	body, _ := g.CondEdges(func(v ssa.Value) (bool, bool) {
+		if e, ok := v.(*ssa.Extract); ok && e.Tuple == ssa.Value(nxV) && e.Index == 0 {
+			return true, true
+		}
+		return false, false
+	})
+	if len(body) == 0 || !g.AfterEntry(setOf(len(g.ins), nx)) {
+		return false
+	}
+	isNx := setOf(len(g.ins), nx)
+	for _, e := range body {
+		// every iteration performs the action before it comes back to the iterator or leaves
+		rr := g.reach([]int{e.to}, A, nil)
+		if rr[nx] {
+			return false
+		}
+		for _, x := range g.returns {
+			if rr[x] {
+				return false
+			}
+		}
+	}
+	for _, a := range members(A) {
+		if !g.OnlyVia(body, a) {
+			return false
+		}
+		// after the action: no second action and no exit before the iterator is consulted again
+		rr := g.reach(g.succ[a], isNx, nil)
+		for _, b := range members(A) {
+			if rr[b] {
+				return false
+			}
+		}
+		for _, x := range g.returns {
+			if rr[x] {
+				return false
+			}
+		}
+		for _, x := range g.panics {
+			if rr[x] {
+				return false
+			}
+		}
+	}
+	return true
+}
+
+// appendAll: fn returns a slice that starts empty and gets exactly the marked appends (walks the
+// phi/append chain from the returned value).
+func (w *World) accumulates(g *FG, ret ssa.Value, A []bool) bool {
+	seen := map[ssa.Value]bool{}
+	ok := true
+	var walk func(v ssa.Value)
+	walk = func(v ssa.Value) {
+		if seen[v] {
+			return
+		}
+		seen[v] = true
+		switch x := v.(type) {
+		case *ssa.Phi:
+			for _, e := range x.Edges {
+				walk(e)
+			}
+		case *ssa.Call:
+			if args, isA := isBuiltinCall(x, "append"); isA && A[g.idx[x]] {
+				walk(args[0])
+				return
+			}
+			ok = false
+		case *ssa.MakeSlice:
+			if constStr(x.Len) != "0" {
+				ok = false
+			}
+		case *ssa.Const:
+			if !x.IsNil() {
+				ok = false
+			}
+		case *ssa.Slice:
+			// []T{} literal: slice of a fresh zero-length array
+			if al, isAl := x.X.(*ssa.Alloc); !isAl || !strings.Contains(al.Type().String(), "[0]") {
+				ok = false
+			}
+		default:
+			ok = false
+		}
+	}
+	walk(ret)
+	return ok
 }
